@@ -35,6 +35,11 @@ def _cfgs(tier):
                     if ch == "bec" and dt == "bool" and False:
                         continue
                     out.append(Cfg(ch, alpha, dt, shp))
+    # history: the same channel object has first transmitted a block of the OTHER alphabet (nothing learnt from one block may be
+    # applied to the next)
+    for ch in ("bsc", "bec", "z"):
+        for alpha in ("binary", "bipolar"):
+            out.append(Cfg(ch, alpha, "float32", "n3", "after_other_alphabet"))
     return out
 
 
@@ -68,17 +73,24 @@ def _prob(ctx):
 def transition_law(ctx, cfg):
     from kaira.channels.digital import BinaryErasureChannel, BinarySymmetricChannel, BinaryZChannel
 
-    ch, alpha, dt, shp = cfg
+    ch, alpha, dt, shp = cfg[:4]
+    history = cfg[4] if len(cfg) > 4 else None
     shape = SHAPES[shp]
     x, xv = _input(ctx, alpha, dt, shape)
     p = _prob(ctx)
     with ctx.sym():
         pt = ctx.tensor(np.asarray(p, dtype=object), torch.float32) if ctx.mode == "sym" else torch.tensor(float(p))
         chan = {"bsc": BinarySymmetricChannel, "bec": BinaryErasureChannel, "z": BinaryZChannel}[ch](pt)
+    if history:
+        other = torch.tensor([-1.0, 1.0, 1.0, -1.0]) if alpha == "binary" else torch.tensor([0.0, 1.0, 1.0, 0.0])
+        first = ctx.call(chan.forward, other)
+        ctx.ensure("earlier_block_of_other_alphabet_transmitted", first.ok, note=repr(first.exc) if not first.ok else "")
+    base = len(ctx.rng_draws)
     out = ctx.call(chan.forward, x)
     ctx.ensure("returns", out.ok, note=repr(out.exc) if not out.ok else "")
     if not out.ok:
         return
+    draws = ctx.rng_draws[base:]
     y = out.value
     ctx.ensure("shape_preserved", SP.shape_is(y, shape))
     ctx.ensure("input_unmodified", out.unmodified)
@@ -86,17 +98,17 @@ def transition_law(ctx, cfg):
     lo, hi = (0, 1) if alpha == "binary" else (-1, 1)
     one = hi
     zero = lo
-    if ch == "z" and not ctx.rng_draws:
+    if ch == "z" and not draws:
         # no draw consumed on this path: only legal when p == 0 or the input has no ones
         no_ones = SP.conj(S.ne(v, one) for v in xv.reshape(-1))
         ctx.ensure("no_draw_only_if_no_flip_possible", S.lor(S.eq(p, 0), no_ones))
         ctx.ensure("law", SP.all_eq(yv, xv))
         ctx.ensure("alphabet", SP.conj(S.lor(S.eq(v, lo), S.eq(v, hi)) for v in yv.reshape(-1)))
         return
-    ctx.ensure("one_rng_call", len(ctx.rng_draws) == 1 and ctx.rng_draws[0][1] == "uniform")
-    if len(ctx.rng_draws) != 1:
+    ctx.ensure("one_rng_call", len(draws) == 1 and draws[0][1] == "uniform")
+    if len(draws) != 1:
         return
-    u = P(ctx.rng_draws[0][2])
+    u = P(draws[0][2])
     claims = []
     alph = []
     if ch == "bsc":
